@@ -62,6 +62,27 @@ def valid_routes(p):
     return r
 
 
+def api_object(sy, p, route, rate_str, style=0, rng=None):
+    """the API object for handing event-process p to PyGOM through `route`:
+    returns (constructor slot, add_* method name, object)"""
+    trs = p["trs"]
+    if route == "E":
+        return "event", "add_event", Event(rate=rate_str, transition_list=[_tr(sy, t, style=style) for t in trs])
+    if route == "E1":
+        k = (rng.randrange(len(trs)) if rng else 0)
+        lst = [_tr(sy, t, equation=(rate_str if j == k else None), style=style) for j, t in enumerate(trs)]
+        obj = Event(transition_list=lst if len(lst) > 1 or (rng and rng.random() < 0.5) else lst[0])
+        return "event", "add_event", obj
+    if route == "T":
+        return "event", "add_event", _tr(sy, trs[0], equation=rate_str, style=style)
+    if route == "LT":
+        return "transition", "add_transition", _tr(sy, trs[0], equation=rate_str, style=style)
+    if route in ("LBo", "LBd", "LD"):
+        return "birth_death", "add_birth_death", _tr(sy, trs[0], equation=rate_str, style=style,
+                                                      birth_by=("o" if route == "LBo" else "d"))
+    raise ValueError(route)
+
+
 def ode_terms_of_event(sy, p):
     """the explicit-ODE rendering of an event: list of (state(1-based), poly)"""
     out = []
@@ -133,26 +154,7 @@ def build(defn, rng=None, style=None, sform="list", pform="list", backend="lambd
                     later.append(("add_ode", obj))
                     ode_later.append(rec)
             continue
-        trs = p["trs"]
-        if route == "E":
-            obj = Event(rate=rs(p["rate"], i), transition_list=[_tr(sy, t, style=i) for t in trs])
-            slot, adder = "event", "add_event"
-        elif route == "E1":
-            k = (rng.randrange(len(trs)) if rng else 0)
-            lst = [_tr(sy, t, equation=(rs(p["rate"], i) if j == k else None), style=i) for j, t in enumerate(trs)]
-            obj = Event(transition_list=lst if len(lst) > 1 or (rng and rng.random() < 0.5) else lst[0])
-            slot, adder = "event", "add_event"
-        elif route == "T":
-            obj = _tr(sy, trs[0], equation=rs(p["rate"], i), style=i)
-            slot, adder = "event", "add_event"
-        elif route == "LT":
-            obj = _tr(sy, trs[0], equation=rs(p["rate"], i), style=i)
-            slot, adder = "transition", "add_transition"
-        elif route in ("LBo", "LBd", "LD"):
-            obj = _tr(sy, trs[0], equation=rs(p["rate"], i), style=i, birth_by=("o" if route == "LBo" else "d"))
-            slot, adder = "birth_death", "add_birth_death"
-        else:
-            raise ValueError(route)
+        slot, adder, obj = api_object(sy, p, route, rs(p["rate"], i), style=i, rng=rng)
         if how == "ctor":
             ctor[slot].append(obj)
             ev_ctor[slot].append(p)
